@@ -874,6 +874,15 @@ def run_event(b, ev, cfg, kill_at=None):
             getattr(b.so, ev[2])(sid, *a, callback=functools.partial(b.rec.cb, sid), **kw)
         elif kind == 'compact':
             b.so.forceLogCompaction()
+        elif kind == 'compactfail':
+            # a compaction whose dump cannot be written (disk full while the dump file is created), in the
+            # modes that write the dump inside the tick (no fork / user-supplied serializer)
+            b.so.forceLogCompaction()
+            b.vfs.fail_dump = True
+            try:
+                b.so._onTick(0.0)
+            finally:
+                b.vfs.fail_dump = False
         elif kind == 'member':
             # ('member', 'add'|'rem', node id, sid, via)
             cbk = functools.partial(b.rec.cb, ev[3])
@@ -1069,6 +1078,8 @@ class ClusterModel(object):
                 evs.append(('K', n))
             if bud['J'] > 0 and self.cfg.journal:
                 evs.append(('J', n))
+            if bud['Q'] > 0 and self.cfg.journal and 'dump' in self.cfg.journal and not self.cfg.use_fork:
+                evs.append(('Kx', n))
             if self.cfg.use_fork and len(s.extra) > 2 and any(k == 'child' for k, _ in s.extra):
                 evs.append(('Cf', n))
                 if bud['Q'] > 0:
@@ -1301,6 +1312,9 @@ class ClusterModel(object):
         if kind == 'Ck':
             bud = self.spend(w, 'Q')
             return bud and self.node_step(w, ev[1], ('child', ev[2]), budget=bud, label=ev)
+        if kind == 'Kx':
+            bud = self.spend(w, 'Q')
+            return bud and self.node_step(w, ev[1], ('compactfail',), budget=bud, label=ev)
         if kind == 'Ce':
             bud = self.spend(w, 'Q')
             return bud and self.node_step(w, ev[1], ('child', 'fail'), budget=bud, label=ev)
